@@ -645,6 +645,67 @@ def refute_scalar_paths(binp):
     return None
 
 
+def refute_serdes(binp):
+    """stream (de)serialization end to end (C19 cross-check): bytes written, bytes consumed with trailing data, truncation, non-reduced values"""
+    rnd = random.Random(29)
+    # scalars
+    for k in (0, 1, R - 1, rnd.randrange(R), (1 << 200) + 7):
+        out, cmd = run_bin(binp, 'ser', dict(kind='fr', k=hex(k), compressed='1'))
+        exp = 'aabbcc' + k.to_bytes(32, 'big').hex()
+        if 'error' not in out and out.get('tag') != exp:
+            return dict(function='serialize:fr', input=hex(k), actual=out.get('tag'), expected=exp, command=cmd)
+    for data, exp in [(k.to_bytes(32, 'big') + tail, ('Ok:32', hex(k))) for k in (0, 5, R - 1) for tail in (b'', b'\x01\x02\x03', bytes(9000))] + \
+                     [(v.to_bytes(32, 'big'), 'Err') for v in (R, R + 1, (1 << 256) - 1)] + [((7).to_bytes(32, 'big')[:n], 'Err') for n in (0, 1, 31)]:
+        out, cmd = run_bin(binp, 'deser', dict(kind='fr', compressed='1', bytes=data.hex()))
+        if 'error' in out:
+            continue
+        act = (out.get('tag'), hex(int(out['out'][0], 16))) if out.get('tag', '').startswith('Ok') else 'Err'
+        if act != exp:
+            return dict(function='deserialize:fr', input=data.hex()[:200], actual=str(act), expected=str(exp), command=cmd[:600])
+    # target group: twelve coefficients, c0.c0.c0 first
+    names = [f'x__c{k}__c{i}__c{j}' for k in range(2) for i in range(3) for j in range(2)]
+    for vals in ([0] * 12, list(range(1, 13)), [rnd.randrange(Q) for _ in range(12)], [Q - 1] * 12):
+        kv = dict(kind='fq12', compressed='0'); kv.update({n: hex(v) for n, v in zip(names, vals)})
+        out, cmd = run_bin(binp, 'ser', kv)
+        blob = b''.join(v.to_bytes(48, 'big') for v in vals)
+        if 'error' not in out and out.get('tag') != 'aabbcc' + blob.hex():
+            return dict(function='serialize:fq12', input=str(vals)[:300], actual=out.get('tag', '')[:200], expected=('aabbcc' + blob.hex())[:200], command=cmd[:600])
+        cases = [(blob + tail, ('Ok:576', [hex(v) for v in vals])) for tail in (b'', b'\xff' * 100, bytes(9000))] + [(blob[:n], 'Err') for n in (0, 47, 575)]
+        for pos in (0, 5, 11):
+            bad = bytearray(blob); bad[48 * pos:48 * pos + 48] = Q.to_bytes(48, 'big'); cases.append((bytes(bad), 'Err'))
+        for data, exp in cases:
+            out, cmd = run_bin(binp, 'deser', dict(kind='fq12', compressed='0', bytes=data.hex()))
+            if 'error' in out:
+                continue
+            act = (out.get('tag'), [hex(int(x, 16)) for x in out['out']]) if out.get('tag', '').startswith('Ok') else 'Err'
+            if act != exp:
+                return dict(function='deserialize:fq12', input=data.hex()[:200], actual=str(act)[:300], expected=str(exp)[:300], command=cmd[:600])
+    # points: bytes written == the point encoding; reading back with trailing data consumes exactly the encoding
+    for F, g in ((F1, 'g1'), (F2, 'g2')):
+        h = 0x396c8c005555e1568c00aaab0000aaab if F is F1 else 0x5d543a95414e7f1091d50792876a202cd91de4547085abaa68a205b2e5a7ddfa628f1cb4d9e82ef21537e293a6691ae1616ec6e786f0c70cf1c38e31c7238e5
+        S = ec_mul(F, h, rand_point(F, rnd))
+        for P in (S, ec_neg(F, S), None):
+            for compressed in (True, False):
+                blob = enc(F, P, compressed)
+                for kind in (g, g + 'a'):
+                    kv = dict(kind=kind, compressed='1' if compressed else '0'); kv.update(pt_args(F, 'p', jac(F, P, F.rand(rnd) if kind == g and P is not None else None)))
+                    out, cmd = run_bin(binp, 'ser', kv)
+                    if 'error' not in out and out.get('tag') != 'aabbcc' + blob.hex():
+                        return dict(function=f'serialize:{kind}:compressed={compressed}', input=kv, actual=out.get('tag', '')[:200], expected=('aabbcc' + blob.hex())[:200], command=cmd[:800])
+                    for tail in (b'', b'\x07' * 50, bytes(9000)):
+                        out, cmd = run_bin(binp, 'deser', dict(kind=kind, compressed='1' if compressed else '0', bytes=(blob + tail).hex()))
+                        if 'error' in out:
+                            continue
+                        act = (out.get('tag'), out_point(F, out)) if out.get('tag', '').startswith('Ok') else 'Err'
+                        if act != ('Ok:%d' % len(blob), P):
+                            return dict(function=f'deserialize:{kind}:compressed={compressed}', input=(blob + tail).hex()[:200], actual=str(act)[:300], expected=str(('Ok:%d' % len(blob), P))[:300], command=cmd[:600])
+                    for n in (len(blob) - 1, len(blob) // 2, len(blob) // 2 + 1):
+                        out, cmd = run_bin(binp, 'deser', dict(kind=kind, compressed='1' if compressed else '0', bytes=blob[:n].hex()))
+                        if 'error' not in out and out.get('tag') != 'Err':
+                            return dict(function=f'deserialize:{kind}:compressed={compressed}', input=blob[:n].hex()[:200], actual=str(out.get('tag')), expected='Err (truncated)', command=cmd[:600])
+    return None
+
+
 # ---- stand-ins: functions that no contract reaches are driven on structured inputs against the independent reference on EVERY run.
 # They are tests, not proofs: reported separately in the evidence (coverage.stand_ins), never counted as obligations.
 STANDINS = {
@@ -652,6 +713,7 @@ STANDINS = {
     'wnaf_contexts_precomp_3': (refute_scalar_paths, "Wnaf context methods with reuse histories (type-state wrappers over AsRef/AsMut) and precomp_3 / mul_precomp_3: structured scalars (0, 1, word and chunk boundaries, r-1, r, 2^255-1), both staging orders, table sizes for 1 / 5 / 100000 scalars"),
     'expand_message_hash_to_field': (refute_expand, "ExpandMsgXmd / ExpandMsgXof / hash_to_field (generic Digest chains and closures: outside the Verus subset) against hashlib: tag lengths 0, 1, 27, 254, 255; output lengths around every block boundary and the 255-block limit (abort expected beyond it); element counts 0..5"),
     'sum_of_products': (refute_msm, "(also under contract in unit msm; kept as an end-to-end cross-check through the compiled point formulas) sum_of_products / sum_of_products_pippinger (windows 1..20) / sum_of_products_precomp_256: empty input, duplicates, inverse pairs, identity points, zero scalars, mismatched lengths, scalars with bits at word boundaries and 2^255-1"),
+    'serdes_streams': (refute_serdes, "(cross-check: the SerDes functions are under contract in units serdes / serout) serialize / deserialize for Fr, Fq12, G1, G2 and the affine types end to end: bytes written after existing sink content, bytes consumed with 0 / 50 / 9000 trailing bytes, truncation at several lengths, non-reduced blocks"),
     'encoders_api': (lambda binp: refute_encode(binp), "into_compressed / into_uncompressed through the public API on random points, both roots, small x, y in Fq / purely imaginary, the identity, with non-trivial Z"),
 }
 
